@@ -18,7 +18,8 @@ for d in sorted(glob.glob("/verif/seeded/C*-*")):
         print("repo dirty, abort"); sys.exit(2)
     rc = subprocess.run(f"git -C /repo apply {d}/patch.diff || (git -C /repo apply -3 {d}/patch.diff && git -C /repo reset -q)", shell=True).returncode
     if rc != 0:
-        res[name] = {"error": "patch does not apply"}; continue
+        subprocess.run("git -C /repo reset -q --hard HEAD", shell=True)
+        res[name] = {"error": "patch does not apply"}; print(name, "PATCH DOES NOT APPLY", flush=True); continue
     out = {}
     try:
         for cid in ids:
